@@ -315,4 +315,128 @@ theorem tie_cryption_model (noBody decryptErr : Bool) :
     ("next.ServeHTTP(cw, r)" ∈ cryptionEffects noBody decryptErr) ↔ (noBody = true ∨ decryptErr = false) := by
   cases noBody <;> cases decryptErr <;> simp [cryptionEffects]
 
+/-! ### round 5c: `ParseToken`'s retry structure -/
+
+/-- `TokenParser.ParseToken` executed symbolically (every call with the secret it is given) IS the model's call list, for
+every secret pair, both settings of "a previous secret is configured" and "the current secret's counter leads", and every
+outcome of the two verifications: the second attempt is a call of the SAME `doParseToken(r, ·)` with the OTHER secret, made
+only after the first failed; the counter of the secret that verified is incremented; nothing else decides the result -/
+theorem tie_parseTokenCalls (secret prev : String) (hasPrev lead : Bool) (err : String → Bool) :
+    Extracted.C18.parseTokenCalls secret prev hasPrev lead err = GoZero.C18.parseTokenCalls secret prev hasPrev lead err := by
+  cases hasPrev <;> cases lead <;> rfl
+
+/-- `cryptionResponseWriter.flush` TRANSLATED, for every outcome of its four conditions: nothing buffered ⇒ nothing at all;
+encryption fails ⇒ 500 and nothing else; otherwise the base64 of the ciphertext is written to the underlying writer ONCE —
+and a write error or a short write changes NOTHING (both branches only log): the list does not depend on them -/
+theorem tie_flushEffects (empty encErr writeErr short : Bool) : flushEffects empty encErr writeErr short =
+    (if empty then []
+     else "codec.EcbEncrypt(key, w.buf.Bytes())" ::
+       (if encErr then ["w.WriteHeader(http.StatusInternalServerError)"]
+        else ["base64.StdEncoding.EncodeToString(content)", "io.WriteString(w.ResponseWriter, body)"])) := by
+  cases empty <;> cases encErr <;> cases writeErr <;> cases short <;> rfl
+
+/-- … which is the model's `flushResp`: no reply ⇒ no body and status 200; a key the cipher refuses ⇒ 500; otherwise the
+base64 ciphertext -/
+theorem tie_flush_model (C : BlockCipher) (key seen out : Bytes) (we sh : Bool) :
+    (flushEffects out.isEmpty (ecbEncrypt C key out).isNone we sh = [] ↔ out.isEmpty = true) ∧
+    ("w.WriteHeader(http.StatusInternalServerError)" ∈ flushEffects out.isEmpty (ecbEncrypt C key out).isNone we sh ↔
+      (out.isEmpty = false ∧ (flushResp C key seen out).status = 500)) := by
+  rw [tie_flushEffects]
+  unfold flushResp
+  cases ho : out.isEmpty <;> cases he : ecbEncrypt C key out <;> simp
+
+/-! ### round 5c: `ParseContentSecurity` and `VerifySignature` as decision functions = the model -/
+
+/-- what a return statement of `ParseContentSecurity` means in the model -/
+def parseResultOf (hdr : CsHeader) (last : String) : Except CsParseErr CsHeader :=
+  if last = "return nil, ErrInvalidHeader" then .error .invalidHeader
+  else if last = "return nil, ErrInvalidPublicKey" then .error .invalidPublicKey
+  else if last = "return nil, ErrInvalidSecret" then .error .invalidSecret
+  else if last = "return nil, ErrInvalidKey" then .error .invalidKey
+  else if last = "return nil, ErrInvalidContentType" then .error .invalidContentType
+  else .ok hdr
+
+def rsaPlain : RsaRes → String
+  | .ok p => p
+  | _ => ""
+
+/-- THE MODEL'S `parseContentSecurity` IS THE TRANSLATED FUNCTION: the same five tests in the same order (an empty field, a
+fingerprint without decrypter, an undecryptable secret, a key that is not base64, a type that is no integer), each ending in
+its own error, and on success the header built from the decoded key, the timestamp, the type and the SIGNATURE FIELD OF THE
+HEADER — for every environment and request -/
+theorem tie_parseContentSecurity_model (env : CsEnv) (req : CsReq) :
+    parseContentSecurity env req =
+      parseResultOf
+        { key := (b64Decode (attr (parseHeaderFields (rsaPlain (env.rsa (headerTriple req).1 (headerTriple req).2.1))) "key")).getD [],
+          timestamp := attr (parseHeaderFields (rsaPlain (env.rsa (headerTriple req).1 (headerTriple req).2.1))) "time",
+          contentType := (parseInt64 (attr (parseHeaderFields (rsaPlain (env.rsa (headerTriple req).1 (headerTriple req).2.1))) "type")).getD 0,
+          signature := (headerTriple req).2.2 }
+        ((parseContentSecurityEffects
+            (decide ((headerTriple req).1.isEmpty = true ∨ (headerTriple req).2.1.isEmpty = true ∨ (headerTriple req).2.2.isEmpty = true))
+            (decide (env.rsa (headerTriple req).1 (headerTriple req).2.1 = .noKey))
+            (decide (env.rsa (headerTriple req).1 (headerTriple req).2.1 = .err))
+            (b64Decode (attr (parseHeaderFields (rsaPlain (env.rsa (headerTriple req).1 (headerTriple req).2.1))) "key")).isNone
+            (parseInt64 (attr (parseHeaderFields (rsaPlain (env.rsa (headerTriple req).1 (headerTriple req).2.1))) "type")).isNone).getLast?.getD "") := by
+  unfold parseContentSecurity parseContentSecurityEffects
+  simp only []
+  by_cases h0 : (headerTriple req).1.isEmpty = true ∨ (headerTriple req).2.1.isEmpty = true ∨ (headerTriple req).2.2.isEmpty = true
+  · rw [if_pos h0]
+    simp only [decide_eq_true h0]
+    simp [parseResultOf]
+  · rw [if_neg h0]
+    simp only [decide_eq_false h0]
+    cases hr : env.rsa (headerTriple req).1 (headerTriple req).2.1 with
+    | noKey => simp [parseResultOf]
+    | err => simp [parseResultOf]
+    | ok plain =>
+      simp only [rsaPlain]
+      split
+      · rename_i hk; simp [hk, parseResultOf]
+      · rename_i key hk
+        split
+        · rename_i ht; simp [hk, ht, parseResultOf]
+        · rename_i ct ht; simp [hk, ht, parseResultOf]
+
+def codeOf (last : String) : Nat :=
+  if last = "return httpx.CodeSignaturePass" then 0
+  else if last = "return httpx.CodeSignatureInvalidHeader" then 1
+  else if last = "return httpx.CodeSignatureWrongTime" then 2
+  else 3
+
+/-- THE MODEL'S `verifySignature` IS THE TRANSLATED FUNCTION: timestamp parse, then the window, then path / query, the HMAC
+under the HEADER's key, and pass exactly on equality with the header's signature -/
+theorem tie_verifySignature_model (env : CsEnv) (tol : Int) (req : CsReq) (h : CsHeader) :
+    verifySignature env tol req h =
+      codeOf ((verifySignatureEffects (parseInt64 h.timestamp).isNone
+          (outsideWindow ((parseInt64 h.timestamp).getD 0) tol env.now)
+          (decide (h.signature = env.hmacB64 h.key
+            (signContent env h.timestamp req.method (pathQuery env req).1 (pathQuery env req).2 req.body)))).getLast?.getD "") := by
+  unfold verifySignature verifySignatureEffects
+  cases hp : parseInt64 h.timestamp with
+  | none => simp [codeOf]
+  | some sec =>
+    simp only [Option.getD_some, Option.isNone_some]
+    by_cases hw : outsideWindow sec tol env.now = true
+    · simp [hw, codeOf]
+    · by_cases hs : h.signature = env.hmacB64 h.key
+          (signContent env h.timestamp req.method (pathQuery env req).1 (pathQuery env req).2 req.body)
+      · simp [hw, hs, codeOf]
+      · simp [hw, hs, codeOf]
+
+/-- the codes are the constants of rest/httpx (tie_codes) -/
+theorem tie_codeOf : codeOf "return httpx.CodeSignaturePass" = 0 ∧ codeOf "return httpx.CodeSignatureInvalidHeader" = 1
+    ∧ codeOf "return httpx.CodeSignatureWrongTime" = 2 ∧ codeOf "return httpx.CodeSignatureInvalidToken" = 3 := by decide
+
+/-! ### round 5c: the accesses to the shared history (the steps of the interleaving model `Conc`) -/
+
+/-- `incrementCount` TRANSLATED: clock, clearing (a `Range` whose body deletes every key — checked by the extractor) when the
+reset time has passed, `Load`, then atomic add on the loaded cell or a fresh `Store` — the model's `incrAccesses`, for
+both outcomes of both conditions -/
+theorem tie_incrementCountEffects (expired present : Bool) :
+    incrementCountEffects expired present = Conc.incrAccesses expired present := by
+  cases expired <;> cases present <;> rfl
+
+theorem tie_loadCountEffects (present : Bool) : loadCountEffects present = Conc.loadAccesses present := by
+  cases present <;> rfl
+
 end GoZero.C18.TieRest
